@@ -106,22 +106,24 @@ class Emitter:
     def emit_state(self, name, st):
         k = st['kind']
         idx = self.sidx[name]
+        vb = 'rt::VBase' if self.feat.get('visitable') else 'boost::msm::front::default_base_state'
         if k == 'simple':
-            base = 'boost::msm::front::state<>'
+            base = 'boost::msm::front::state<%s>' % vb
         elif k == 'terminate':
-            base = 'boost::msm::front::terminate_state<>'
+            base = 'boost::msm::front::terminate_state<%s>' % vb
         elif k == 'interrupt':
             ee = st['end_events']
-            base = 'boost::msm::front::interrupt_state<%s>' % (ee[0] if len(ee) == 1 else 'boost::mpl::vector<%s>' % ','.join(ee))
+            base = 'boost::msm::front::interrupt_state<%s,%s>' % (ee[0] if len(ee) == 1 else 'boost::mpl::vector<%s>' % ','.join(ee), vb)
         elif k == 'explicit':
-            base = 'boost::msm::front::state<>, boost::msm::front::explicit_entry<%d>' % st['region']
+            base = 'boost::msm::front::state<%s>, boost::msm::front::explicit_entry<%d>' % (vb, st['region'])
         elif k == 'entry_pt':
-            base = 'boost::msm::front::entry_pseudo_state<%d>' % st['region']
+            base = 'boost::msm::front::entry_pseudo_state<%d,%s>' % (st['region'], vb)
         elif k == 'exit_pt':
-            base = 'boost::msm::front::exit_pseudo_state<%s>' % st['event']
+            base = 'boost::msm::front::exit_pseudo_state<%s,%s>' % (st['event'], vb)
         else:
             raise ValueError(k)
         self.w('struct %s : %s {' % (name, base))
+        self.w('  const char* rt_name() const %s{ return "%s"; }' % ('override ' if self.feat.get('visitable') else '', name))
         if st.get('flags'):
             self.w('  typedef boost::mpl::vector<%s> flag_list;' % ','.join(st['flags']))
         if st.get('deferred'):
@@ -152,7 +154,12 @@ class Emitter:
                 self.emit_state(sname, st)
         idx = self.sidx[name]
         st_self = m.get('as_state', {})
-        self.w('struct %s_ : boost::msm::front::state_machine_def<%s_> {' % (name, name))
+        if self.feat.get('visitable'):
+            self.w('struct %s_ : boost::msm::front::state_machine_def<%s_, rt::VBase> {' % (name, name))
+            self.w('  const char* rt_name() const override { return "%s"; }' % name)
+        else:
+            self.w('struct %s_ : boost::msm::front::state_machine_def<%s_> {' % (name, name))
+            self.w('  const char* rt_name() const { return "%s"; }' % name)
         if st_self.get('flags'):
             self.w('  typedef boost::mpl::vector<%s> flag_list;' % ','.join(st_self['flags']))
         if st_self.get('deferred'):
@@ -213,6 +220,8 @@ class Emitter:
             w('#define VERIF_SCRIPTS 1')
         if self.feat.get('serialize'):
             w('#define VERIF_SERIALIZE 1')
+        if self.feat.get('visitable'):
+            w('#define VERIF_VISITABLE 1')
         w('#include "rt.hpp"')
         w('#define RT_NOHIST ::rt::hist_none')
         w('#define RT_ALWAYSHIST ::rt::hist_always')
@@ -368,6 +377,25 @@ class Emitter:
             w('  o += "%s=" + std::to_string((int)r.is_flag_active<%s>()) + ";";' % (f, f))
         w('}')
         w('inline void probe_all(Root& r, std::string& o){ dump_ids(r, o);')
+        if self.feat.get('visitable'):
+            w('#if CFG >= 5')
+            for mode in ('active_recursive', 'active_non_recursive', 'all_recursive', 'all_non_recursive'):
+                w('  { o += "v_%s="; r.visit<boost::msm::backmp11::visit_mode::%s>([&](auto& s){ o += s.rt_name(); o += ","; }); o += ";"; }' % (mode, mode))
+            w('  o += "act=";')
+            for m, path in paths:
+                for sname in S.state_order(m):
+                    tname = sname
+                    if m['states'][sname]['kind'] == 'exit_pt':
+                        tname = '%s::exit_pt<%s>' % (m['name'], sname)
+                    w('  if (r.is_state_active<%s>()) o += "%s,";' % (tname, sname))
+            w('  o += ";";')
+            w('#else')
+            w('  { rt::Vis v; r.visit_current_states(boost::ref(v)); o += "v_active_recursive=" + v.names + ";"; }')
+            for m, path in paths:
+                n = len(S.state_order(m))
+                w('  { auto& mm = mach_%s(r); o += "byid:%s="; for (int i = 0; i < %d; ++i) { const rt::VBase* p = mm.get_state_by_id(i); o += p ? p->rt_name() : "null"; o += ","; } o += ";"; }'
+                  % (m['name'], m['name'], n))
+            w('#endif')
         for m, path in paths:
             for f in flags:
                 w('  o += "fl:%s:%s=" + std::to_string((int)mach_%s(r).is_flag_active<%s>());' % (m['name'], f, m['name'], f))
